@@ -16,6 +16,12 @@ CLAIMED = {
  "C11": ("rapid property-based testing against an independent strict mapping codec (round trip + differential), structure-aware mutation of encodings, complete enumeration of tiny maps, native fuzzing of ReadMapping (thorough)",
          "Map->bytes->map identity, canonical order, determinism over 5 conversions, exact size field and limit behaviour on ~60k generated maps per quick run (incl. sizes 65535+-3 and 256..300-byte strings); parser direction on ~150k mutated/arbitrary inputs: anything accepted must re-serialise to the consumed bytes and be accepted by the strict model, anything strictly well-formed must be accepted.",
          "internal/model's strict mapping decoder is the reference; 'parsed without error' = empty error list or only the trailing-data warning the library's own callers filter.", "DESIGN.md 5/C11"),
+ "C01": ("rapid property-based testing: round-trip oracle (serialise(parse(x)) == consumed bytes) over all 43 parser entry points, inputs = independent-model encodings + structure-aware mutations + arbitrary bytes; native coverage-guided fuzzing with the same oracle (thorough)",
+         "Every accepted input of every parser entry point must re-serialise to the consumed bytes; ~400k generated (entry, input) pairs per quick run with measured acceptance per entry point (hundreds to thousands accepted per entry). Exploration: the input space is sampled, guided by an independent encoder so that accepted non-canonical shapes (excess certificate payload, unsorted/odd mappings, all key-type pairs, offline blocks) are reached.",
+         "Self-contained oracle (no model needed for the verdict); ReadLeaseSet has no remainder, its extent is taken from the independent model.", "DESIGN.md 5/C01"),
+ "C03": ("rapid property-based testing with metamorphic relations (append-invariance, prefix rejection at every cut point) and a differential extent oracle against the independent model",
+         "For each accepted input: remainder is a suffix, consumed extent equals the model's, 5 appended strings leave value and consumed count unchanged, and every proper prefix of a completely consumed encoding is rejected (all cut points up to 1200 bytes). ~24k base inputs and ~2M parser calls per quick run.",
+         "internal/model decoders give the declared extent; acceptance rule per entry point as in DESIGN 3.4.", "DESIGN.md 5/C03"),
 }
 checks = []
 for pid in ids:
